@@ -11,7 +11,7 @@ Driver for C17: one operation per line on stdin, one result per line on stdout.
                                     relative to that parent); answer: status and the tree below /w
   untar dir=<hex> pre=<ents> ents=<ents>      dock.writeTarToDir, same conventions
   rt dir=<hex> tree=<ents>          ziputil.ZipDir of a tree, then UnzipDir(dir, _, clear=true);
-                                    answer: entry names, status, extracted tree relative to dir
+                                    answer: whether the tree is in walk order (`treeOK`), entry names, status, extracted tree relative to dir
   rtfile dir=<hex> base=<hex> perm=<n> content=<hex>     ziputil.ZipFile, then UnzipDir
   tarzip dir=<hex> names=<hex,...>  tarutil.TarZipFile: the tar header names
 
@@ -122,7 +122,7 @@ def step (_ : Unit) (line : String) : Unit × String :=
           let zs := if C17Facts.zipDirKeepsMode then zipDir t else (zipDir t).map (fun z => { z with perm := 0 })
           let (fs', st) := unzipDir C17Facts.unzipGuard dir true fs zs
           let names := ",".intercalate (zs.map (fun z => Hex.encode z.name))
-          s!"names={names} {showStatus st} tree={showTree (subtree fs' (clean dir).segs)}"
+          s!"wf={treeOK t} names={names} {showStatus st} tree={showTree (subtree fs' (clean dir).segs)}"
       | _, _ => "bad-op"
     | "rtfile" :: rest =>
       match kvHex rest "dir", kvHex rest "base", kvNat rest "perm", kvHex rest "content" with
